@@ -1057,6 +1057,25 @@ struct VModel {
     friend auto operator<(VModel const& a, VModel const& b) -> bool { return a.index != b.index ? a.index < b.index : a.value < b.value; }
 };
 
+// a visitor whose call operator is overloaded on the value category of the visitor itself
+struct RefQualifiedVisitor {
+    int* calls;
+
+    template <typename X>
+    auto operator()(X const& /*x*/) & -> int
+    {
+        ++*calls;
+        return 1;
+    }
+
+    template <typename X>
+    auto operator()(X const& /*x*/) && -> int
+    {
+        ++*calls;
+        return 2;
+    }
+};
+
 template <typename X>
 auto alt_value(X const& x) -> int
 {
@@ -1328,6 +1347,24 @@ struct VarDriver : DriverBase<VarDriver<Ts...>> {
                 bool const ok3 = s3.size() == 6 && s3[0] == 7 && s3[1] == val && s3[2] == 9 && s3[4] == tagOfIndex && r3 == val + 16;
                 if (!ok1 || !ok2 || !ok3) {
                     ctx.violation("C07", "diff:variant:visit-mixed-arity", "a visit over this variant and a single-alternative variant did not see the active alternative");
+                    return;
+                }
+            }
+            // the visitor itself is forwarded: an rvalue visitor is called through its &&-qualified call operator
+            {
+                using RefQualified = RefQualifiedVisitor;
+                int calls = 0;
+                int asRvalue = 0;
+                int asLvalue = 0;
+                if (!observe("visit-visitor-category", [&] {
+                        RefQualified lv{&calls};
+                        asRvalue = etl::visit(RefQualified{&calls}, a);
+                        asLvalue = etl::visit(lv, a);
+                    })) {
+                    return;
+                }
+                if (asRvalue != 2 || asLvalue != 1 || calls != 2) {
+                    ctx.violation("C07", "diff:variant:visit-visitor-category", "visit did not call the visitor with the value category it was passed with (std::visit forwards it)");
                     return;
                 }
             }
@@ -2598,16 +2635,29 @@ struct AmpDriver : DriverBase<AmpDriver> {
                 case 0:
                     if (o->has_value()) {
                         got.push_back((**o).v);
+                        // operator-> must name the contained object itself, not what its operator& returns
+                        if (static_cast<void const*>(o->operator->()) != static_cast<void const*>(std::addressof(**o))) {
+                            got.back() = -31;
+                        }
                     }
                     break;
                 case 1:
                     if (v->index() == 1) {
                         got.push_back(etl::unchecked_get<1>(*v).v);
+                        auto* byIndex = etl::get_if<1>(v);
+                        auto* byType  = etl::get_if<TrackedAmp>(v);
+                        void const* real = std::addressof(etl::unchecked_get<1>(*v));
+                        if (static_cast<void const*>(byIndex) != real || static_cast<void const*>(byType) != real) {
+                            got.back() = -32;
+                        }
                     }
                     break;
                 case 2:
                     if (x->has_value()) {
                         got.push_back((**x).v);
+                        if (static_cast<void const*>(x->operator->()) != static_cast<void const*>(std::addressof(**x))) {
+                            got.back() = -33;
+                        }
                     }
                     break;
                 case 3:
